@@ -11,7 +11,8 @@ COQ_CASE_TY = "RunC07.case"
 RULE = ("trees over the leaf alphabet {zero chunk, zero summaries Z(0..3), two non-zero chunks} (random shapes; "
         "all shapes of depth<=2 in the thorough tier) x gindex (0, all small ones, deep random ones) x expand on/off "
         "x replacement node; plus built all-zero subtrees (pairs whose root is a zero hash) of height 1-4 hung below "
-        "other siblings with the target inside them; non-trivial = gindex >= 2 and the tree is not a single leaf; distinct by input JSON")
+        "other siblings with the target inside them; plus pair trees holding lazily loaded (virtual, childless) leaves, zero-rooted "
+        "ones included; non-trivial = gindex >= 2 and the tree is not a single leaf; distinct by input JSON")
 EXHAUSTIVE = {"quick": False, "thorough": False}
 NAMES = ["P:get", "P:set", "P:set_probes", "P:orig_untouched", "P:summarize"]
 LEAVES = [["Z", 0], ["Z", 1], ["Z", 2], ["Z", 3], chunk(7), chunk(9)]
@@ -54,6 +55,16 @@ def gen_inputs(ctx):
             t = ["P", sib, t] if bits[i] else ["P", t, sib]
         yield {"tree": t, "g": g, "expand": rng.random() < 0.8, "v": rng.choice(REPL)}
     yield from gen_zero_built(ctx)
+    # lazily loaded leaves (VirtualNode whose source knows no children) inside ordinary pair trees: they are leaves like
+    # any other — navigation below them fails, a zero-rooted one on the path of an expanding write is expanded
+    vleaves = LEAVES + [["V", chunk(7)[1]], ["V", chunk(9)[1]], ["VZ", 0], ["VZ", 1], ["VZ", 2], ["VZ", 3]] * 2
+    for _ in range(1500 if ctx.thorough else 300):
+        t = rand_tree(rng, rng.choice([1, 2, 3, 3, 4]), vleaves)
+        if t[0] != "P":
+            continue                      # a virtual node at the very top is C20's subject
+        d = tree_depth(t)
+        g = rng.randrange(1, 2 << (d + 2)) if rng.random() < 0.7 else (1 << rng.choice([3, 5, 8])) | rng.getrandbits(3)
+        yield {"tree": t, "g": g, "expand": rng.random() < 0.6, "v": rng.choice(REPL)}
 
 
 def zero_built(rng, h, force=True):
@@ -91,6 +102,8 @@ def build(inp):
     n = tree_py(t)
     vn = tree_py(v)
     probes = probes_for(g)
+    if (g + len(json.dumps(t))) % 2 == 0:
+        n.merkle_root()          # every pair of the receiver has its root cached: writes must still not touch it
 
     def rootof(f):
         return attempt(lambda: f().merkle_root())
@@ -102,8 +115,8 @@ def build(inp):
         o_set = res.merkle_root()
         same = attempt(lambda: res.getter(g) is vn)
         o_probes = [same] + [rootof(lambda q=q: res.getter(q)) for q in probes]
-    o_orig = tree_same(n, t)
     sm = attempt(lambda: n.summarize_into(g)())
+    o_orig = tree_same(n, t)     # after the write AND the summary: the receiver is structurally what it was
     if isinstance(sm, E):
         o_sum = sm
     else:
